@@ -134,6 +134,13 @@ def rng_vectors(tier):
                                 lq=lq, uq=3, llq=llq, lt=lt, luq=max(lt, n3) + 1))
                 out.append(base("spa", 1, 2, n3, 1, 1, 0.0, 0.0, twopl,
                                 lq=lq, uq=3, llq=llq, lt=lt, luq=max(lt, n3) + 1))
+    # lower quotas together with ties on either side (weak stability + quotas)
+    for t1, t2 in ((1.0, 0.0), (0.5, 0.0), (0.0, 1.0), (1.0, 1.0)):
+        for lq in (1, 2):
+            out.append(base("hr", 1, 2, None, 1, 2, t1, t2, True, lq=lq, uq=2))
+            out.append(base("hr", 2, 2, None, 2, 2, t1, t2, True, lq=lq, uq=3))
+            out.append(base("spa", 1, 2, 1, 1, 2, t1, t2, True, lq=lq, uq=2, llq=0, lt=1, luq=2))
+            out.append(base("spa", 2, 2, 2, 2, 2, t1, t2, True, lq=lq, uq=3, llq=1, lt=2, luq=3))
     for lq in (1, 2):
         out.append(base("hr", 2, 2, None, 1, 2, 0.0, 0.0, True, lq=lq, uq=3))
         out.append(base("ha", 2, 2, None, 1, 2, 0.0, 0.0, False, lq=lq, uq=3))
